@@ -124,6 +124,12 @@ class _FakePath(object):
     def isdir(self, path):
         return path in self._fs.dirs
 
+    def getsize(self, path):
+        if path not in self._fs.files:
+            raise FileNotFoundError(2, "No such file or directory", path)
+        ent = self._fs.files[path]
+        return len(ent["content"]) + len(ent["records"])
+
     def getmtime(self, path):
         if path not in self._fs.files:
             raise FileNotFoundError(2, "No such file or directory", path)
